@@ -106,7 +106,7 @@ pub fn entrait_for_mod(attr: &EntraitFnAttr, input_mod: InputMod) -> syn::Result
                 crate_idents: &attr.crate_idents,
                 opts: &attr.opts,
             }
-            .analyze(input_fn.input_sig(), &mut generics_analyzer)
+            .analyze_member_fn(input_fn, &mut generics_analyzer)
         })
         .collect::<syn::Result<Vec<_>>>()?;
     let sub_attributes = analyze_sub_attributes(&input_mod.attrs);
